@@ -87,7 +87,80 @@ def helpers(program):
     return {k: v for k, v in u.defs.items() if '.' not in k}
 
 _res_cache = {}
+_LAST_PROGRAM = [None]
+_MUTATORS = ('update', 'setdefault', 'pop', 'popitem', 'clear', 'append', 'extend', 'insert', 'remove', 'add', 'discard', 'sort', 'reverse', '__setitem__', '__delitem__')
+
+def module_constants(program, mod='utils'):
+    """module-level names of utils bound once to a constant expression (numbers, strings, tuples / lists / dicts / sets of them, arithmetic on them,
+    earlier constants) and never written, deleted or mutated anywhere in the module: name -> Python value.  They are read by the point evaluation
+    of a helper's residual (a table a helper looks its scale up in is part of what the helper computes)."""
+    cache = getattr(program, '_n2k_module_constants', None)
+    if cache is None:
+        cache = program._n2k_module_constants = {}
+    if mod in cache:
+        return cache[mod]
+    tree = program.mod(mod).tree
+    out = {}
+    def cev(n):
+        if isinstance(n, ast.Constant):
+            return n.value
+        if isinstance(n, ast.Name) and n.id in out:
+            return out[n.id]
+        if isinstance(n, ast.UnaryOp) and isinstance(n.op, (ast.USub, ast.UAdd, ast.Invert)):
+            v = cev(n.operand)
+            return -v if isinstance(n.op, ast.USub) else (+v if isinstance(n.op, ast.UAdd) else ~v)
+        if isinstance(n, ast.BinOp):
+            import operator as O
+            ops = {ast.Add: O.add, ast.Sub: O.sub, ast.Mult: O.mul, ast.Div: O.truediv, ast.FloorDiv: O.floordiv, ast.Mod: O.mod, ast.Pow: O.pow, ast.LShift: O.lshift,
+                   ast.RShift: O.rshift, ast.BitOr: O.or_, ast.BitAnd: O.and_, ast.BitXor: O.xor}
+            if type(n.op) not in ops:
+                raise ValueError
+            a, b = cev(n.left), cev(n.right)
+            if isinstance(n.op, (ast.Pow, ast.LShift)) and isinstance(b, (int, float)) and abs(b) > 4096:
+                raise ValueError
+            return ops[type(n.op)](a, b)
+        if isinstance(n, ast.Tuple):
+            return tuple(cev(e) for e in n.elts)
+        if isinstance(n, ast.List):
+            return [cev(e) for e in n.elts]
+        if isinstance(n, ast.Set):
+            return {cev(e) for e in n.elts}
+        if isinstance(n, ast.Dict):
+            if any(k is None for k in n.keys):
+                raise ValueError
+            return {cev(k): cev(v) for k, v in zip(n.keys, n.values)}
+        raise ValueError
+    stores = {}
+    for n in ast.walk(tree):
+        if isinstance(n, ast.Name) and isinstance(n.ctx, (ast.Store, ast.Del)):
+            stores[n.id] = stores.get(n.id, 0) + 1
+    touched = set()
+    for n in ast.walk(tree):
+        if isinstance(n, (ast.Subscript, ast.Attribute)) and isinstance(n.ctx, (ast.Store, ast.Del)) and isinstance(n.value, ast.Name):
+            touched.add(n.value.id)
+        if isinstance(n, ast.Call) and isinstance(n.func, ast.Attribute) and n.func.attr in _MUTATORS and isinstance(n.func.value, ast.Name):
+            touched.add(n.func.value.id)
+        if isinstance(n, ast.AugAssign) and isinstance(n.target, ast.Name):
+            touched.add(n.target.id)
+        if isinstance(n, (ast.Global, ast.Nonlocal)):
+            touched.update(n.names)
+    for st in tree.body:
+        tgt = val = None
+        if isinstance(st, ast.Assign) and len(st.targets) == 1 and isinstance(st.targets[0], ast.Name):
+            tgt, val = st.targets[0].id, st.value
+        elif isinstance(st, ast.AnnAssign) and isinstance(st.target, ast.Name) and st.value is not None:
+            tgt, val = st.target.id, st.value
+        if tgt is None or stores.get(tgt, 0) != 1 or tgt in touched:
+            continue
+        try:
+            out[tgt] = cev(val)
+        except (ValueError, TypeError, ZeroDivisionError, OverflowError, KeyError):
+            continue
+    cache[mod] = out
+    return out
+
 def residual(program, name, bind):
+    _LAST_PROGRAM[0] = program
     key = (id(program), name, tuple(sorted(bind.items())))
     if key in _res_cache:
         return _res_cache[key]
@@ -238,8 +311,22 @@ def _eval_rows(rows, params):
                 raise teval.EvalUnknown(f"from_bytes: {e_}")
         if name in ('len', 'bytes', 'str'):
             return {'len': len, 'bytes': bytes, 'str': str}[name](*args, **kw)
+        if f[0] == 'attr' and f[2] == 'get' and 1 <= len(args) <= 2 and not kw:
+            o = ev(f[1], m)
+            if isinstance(o, dict):          # a constant table of the module (module_constants)
+                try:
+                    return o.get(*args)
+                except TypeError as e_:
+                    raise teval.EvalUnknown(f"get: {e_}")
         raise teval.EvalUnknown(name)
-    m = teval.Model(params=params, names=teval_names(), calls=calls)
+    names = teval_names()
+    if _LAST_PROGRAM[0] is not None:
+        try:
+            for k_, v_ in module_constants(_LAST_PROGRAM[0]).items():
+                names.setdefault(k_, v_)
+        except (AnalysisError, KeyError, AttributeError):
+            pass
+    m = teval.Model(params=params, names=names, calls=calls)
     for (k, gs, v, ln) in rows:
         if k not in ('return', 'raise'):
             continue
